@@ -16,6 +16,15 @@ OBS = 'gym_gridverse/envs/observation_functions.py'
 GEOMF = 'gym_gridverse/geometry.py'
 
 
+class SubgridUnmodelled(AnalysisError):
+    """Grid.subgrid is written in a way the slice model does not cover; `shared` lists the
+    returns that definitely hand out this grid's own rows (decidable without the model)"""
+
+    def __init__(self, msg: str, shared=()):
+        super().__init__(msg)
+        self.shared = list(shared)
+
+
 class Subgrid:
     """Grid.subgrid as data: slice[r][c] = objects[row(r)][col(c)] if <inside> else <pad>"""
 
@@ -49,12 +58,13 @@ class Subgrid:
                 self.fill_and_copy = True
         self.returns_self = bool(self.aliasing_returns)
         if not good:
+            shared = self._shared_rows(w, rets)
             if self.aliasing_returns:
                 e, t = self.aliasing_returns[0]
-                raise AnalysisError(
+                raise SubgridUnmodelled(
                     'Grid.subgrid rows are not a nested list comprehension: '
-                    f'`{t}` (outside the grammar; freshness and order unknown)')
-            raise AnalysisError('Grid.subgrid: no comprehension return')
+                    f'`{t}` (outside the grammar; freshness and order unknown)', shared)
+            raise SubgridUnmodelled('Grid.subgrid: no comprehension return', shared)
         self.fresh_outer = True
         self.fresh_rows = True
         self.walk = w
@@ -108,6 +118,26 @@ class Subgrid:
         if getattr(self, 'fill_and_copy', False):
             self.n_returns = 2      # the test mentions the area bounds: enumerate small areas
         self.cond = formula_of(self.test) if self.test is not None else None
+
+    @staticmethod
+    def _shared_rows(w, rets):
+        """returns whose rows are, on some path, this grid's own row lists: `Grid(X)` / `X`
+        with X = self.objects, a slice of it, or a shallow copy of it"""
+        out = []
+        for e in rets:
+            v = e.value
+            if isinstance(v, ast.Call) and src(v.func) == 'Grid' and len(v.args) == 1:
+                v = v.args[0]
+            for val, _g in w._values(v, e.guard):
+                t = val
+                if isinstance(t, ast.Call) and src(t.func) in ('list', 'tuple') and \
+                        len(t.args) == 1:
+                    t = t.args[0]
+                if isinstance(t, ast.Subscript) and isinstance(t.slice, ast.Slice):
+                    t = t.value
+                if src(t) in ('self.objects', 'self'):
+                    out.append((e, src(val)[:80]))
+        return out
 
     # ------------------------------------------------------------------ fill and copy
     def _fill_and_copy(self, f, w):
